@@ -441,10 +441,19 @@ func (mc *MemoryChannel) rangeLocked() (int64, int64) {
 }
 
 func (mc *MemoryChannel) inRangeLocked(offset int64) bool {
-	if mc.rdb != nil && mc.rdb.replayable && offset <= mc.rdb.left {
+	if mc.indexContinuousAofLocked(offset) != nil {
 		return true
 	}
-	return mc.indexContinuousAofLocked(offset) != nil
+	if mc.rdb != nil && mc.rdb.replayable && offset <= mc.rdb.left {
+		// A position before the snapshot is served by replaying the snapshot. The
+		// snapshot's own offset is the position a completed replay stores : it is only
+		// valid if the log continues from there. The collector drops the oldest log
+		// segments first and keeps the snapshot; once the log no longer starts at the
+		// snapshot's offset, that position must be asked from the source (or every
+		// connection would replay the same snapshot again, never followed by the stream).
+		return offset < mc.rdb.left || len(mc.aofSegs) == 0
+	}
+	return false
 }
 
 func (mc *MemoryChannel) continuousAofRangeLocked() (int64, int64, bool) {
